@@ -381,8 +381,13 @@ func ruleC04Quote(e *Env) {
 }
 
 // ruleC04Keys: the object reader switches on the marshal key constants.
-func ruleC04Keys(e *Env) {
-	const rule = "C04.keys"
+func ruleC04Keys(e *Env) { ruleKeys(e, "C04.keys", false) }
+
+// ruleKeys: strict (C12): a member is value / unit only if its key equals the constant up to ASCII case — the
+// normaliser must be a function of the module that lower-cases A–Z and nothing else (strings.ToLower folds U+0130
+// and U+212A onto ASCII letters too: "un\u0130t" would be the unit member). Not strict (C04): the reader finds the
+// keys the writer emits, for which strings.ToLower is as good.
+func ruleKeys(e *Env, rule string, strict bool) {
 	kv, ku := tabConstString(e, "size", "ObjectKeyValue"), tabConstString(e, "size", "ObjectKeyUnit")
 	rd := e.Fn(rule, "size", "unmarshalJSONObject")
 	if rd == nil || kv == "" || ku == "" {
@@ -398,6 +403,8 @@ func ruleC04Keys(e *Env) {
 	}
 	cmp := map[string]bool{}
 	lowered := true
+	normaliser, notASCII := "", ""
+	unicodeFold := false
 	for _, b := range rd.Blocks {
 		for _, in := range b.Instrs {
 			bo, ok := in.(*ssa.BinOp)
@@ -409,9 +416,21 @@ func ruleC04Keys(e *Env) {
 				continue
 			}
 			call, ok := bo.X.(*ssa.Call)
-			if !ok || call.Call.StaticCallee() == nil || call.Call.StaticCallee().String() != "strings.ToLower" {
-				if _, isStr := bo.X.Type().Underlying().(interface{ Info() int }); !isStr {
+			switch {
+			case !ok || call.Call.StaticCallee() == nil:
+				lowered = false
+			case call.Call.StaticCallee().String() == "strings.ToLower":
+				normaliser = "strings.ToLower"
+				if strict {
+					unicodeFold = true
 				}
+			case flow.InRepo(call.Call.StaticCallee()):
+				normaliser = flow.FnName(call.Call.StaticCallee())
+				if ok, why := asciiLowerOnly(e, flow.Origin(call.Call.StaticCallee())); !ok {
+					lowered = false
+					notASCII = why
+				}
+			default:
 				lowered = false
 			}
 			cmp[s] = true
@@ -424,11 +443,72 @@ func ruleC04Keys(e *Env) {
 			e.S.Bad(rule, site, "case "+quote(k), "the reader has no arm for the marshal key "+quote(k), e.Pos(rd), "")
 		}
 	}
-	if !lowered {
-		e.S.Bad(rule, site, "lower-casing", "a key comparison is not made on strings.ToLower(key): keys are documented case-insensitive", e.Pos(rd), `{"VALUE":1,"Unit":"B"}`)
-	} else {
-		e.S.Ok(rule, site, "lower-casing", "every key comparison is made on strings.ToLower(key)", e.Pos(rd))
+	switch {
+	case notASCII != "":
+		e.S.Bad(rule, site, "lower-casing", "the key normaliser "+normaliser+" is not ASCII lower-casing: "+notASCII, e.Pos(rd), "")
+	case !lowered:
+		e.S.Bad(rule, site, "lower-casing", "a key comparison is not made on the lower-cased key: keys are documented case-insensitive", e.Pos(rd), `{"VALUE":1,"Unit":"B"}`)
+	case unicodeFold:
+		e.S.Bad(rule, site, "lower-casing", "keys are compared after strings.ToLower, which also maps U+0130 to 'i' and U+212A to 'k': a member named \"un\\u0130t\" is taken for the unit member (accepted with RuleDisallowUnknownKeys, a duplicate beside a real unit, a substitute for a missing one)", e.Pos(rd), `{"value":1,"un\u0130t":"KiB"} under RuleDisallowUnknownKeys`)
+	default:
+		e.S.Ok(rule, site, "lower-casing", "every key comparison is made on "+normaliser+"(key)", e.Pos(rd))
 	}
+}
+
+// asciiLowerOnly: fn(s string) string maps A–Z to a–z and every other byte to itself. fn is evaluated on a
+// one-byte text for each of the 26 letters and for an opaque byte of each of the two gaps (that all positions are
+// treated alike is the shape of its range loop).
+func asciiLowerOnly(e *Env, fn *ssa.Function) (bool, string) {
+	if len(fn.Params) != 1 || len(fn.Blocks) == 0 {
+		return false, "not a function of one string"
+	}
+	type class struct{ lo, hi int64 }
+	classes := []class{{0, 'A' - 1}}
+	for c := int64('A'); c <= 'Z'; c++ {
+		classes = append(classes, class{c, c})
+	}
+	classes = append(classes, class{'Z' + 1, 255})
+	for _, cl := range classes {
+		cl := cl
+		var elem pred.Val = pred.Sym{Name: "b"}
+		if cl.lo == cl.hi {
+			elem = pred.Const{V: constant.MakeInt64(cl.lo)}
+		}
+		cell := &pred.Cell{V: elem, Name: "byte"}
+		fixed := func(a, b pred.Val) (int, bool, bool) {
+			if sy, ok := a.(pred.Sym); ok && sy.Name == "b" {
+				if c, ok := b.(pred.Const); ok && c.V != nil && c.V.Kind() == constant.Int {
+					k, _ := constant.Int64Val(c.V)
+					switch {
+					case k < cl.lo:
+						return 1, true, true
+					case k > cl.hi:
+						return -1, true, true
+					}
+				}
+			}
+			return 0, false, false
+		}
+		o := &treeOracle{assign: map[string]int{}, fixed: fixed, keyOf: func(a, b pred.Val) (string, bool) { return "", false }}
+		ev := &pred.Evaluator{Prog: e.P.SSA, Oracle: o, GlobalInit: e.globalTables()}
+		out, err := ev.Eval(fn, []pred.Val{&pred.SliceV{Elems: []*pred.Cell{cell}}})
+		if err != nil {
+			return false, "not evaluable byte by byte: " + err.Error()
+		}
+		res, ok := out.Ret.(*pred.SliceV)
+		if !ok || len(res.Elems) != 1 {
+			return false, fmt.Sprintf("returns %v for a one-byte text", out.Ret)
+		}
+		got := res.Elems[0].V
+		if cl.lo == cl.hi {
+			if k, ok := intOf(got); !ok || k != cl.lo+32 {
+				return false, fmt.Sprintf("%q is mapped to %v, not to %q", rune(cl.lo), got, rune(cl.lo+32))
+			}
+		} else if got.String() != "b" {
+			return false, fmt.Sprintf("bytes %#x..%#x are rewritten (to %v)", cl.lo, cl.hi, got)
+		}
+	}
+	return true, ""
 }
 
 // ruleC04Sep: what the pretty formatter inserts is what the text parser skips.
